@@ -20,6 +20,12 @@ import RisorModel.C03.Model
 * `importseq <name:state,…>` (state m = no file, b = a file that does not compile, g = a file
   that compiles) → `ok <M|Enf|Ebad,…>` | `fatal <call index> <why>` | `blocked <call index>`:
   `importSeq implPaths` on a fresh importer
+* `life <untracked|closeKept|closeCleared> <api:ctx:body,…>` (api run | runCode | call; ctx plain |
+  live | done; body returns | raises | panics) → `ok` then the outcome classes of the entries
+  (`value` | `error` | `raised` | `killed`, comma-separated) then `running=<bool>`: `lifeSeq`
+  from `Life.init`
+* `constexpr <prefix tokens>` (`n<decimal>`, `neg`, `add sub mul div mod xor shl shr band bor`) →
+  `value <n>` | `error <why>` | `killed <why>`: `declRun implConst`
 * `inspect <heap> <value>` → `ok <hex of the rendering>` | `nofuel`
 * `equals <heap> <a> <b>` → `t|f|overflow` then `ranked=<bool>` -/
 namespace Risor.C03
@@ -154,7 +160,75 @@ def showImpRes : ImpRes → String
   | .module => "M"
   | .error w => if w.startsWith "import error" then "Enf" else "Ebad"
 
+def parseLStep (s : String) : Option LStep :=
+  match s.splitOn ":" with
+  | [a, c, b] =>
+    let api : Option HostApi := match a with
+      | "run" => some .run | "runCode" => some .runCode | "call" => some .call | _ => none
+    let ctx : Option CtxK := match c with
+      | "plain" => some .plain | "live" => some .live | "done" => some .done | _ => none
+    let body : Option RunBody := match b with
+      | "returns" => some .returns | "raises" => some .raises | "panics" => some .panics | _ => none
+    match api, ctx, body with
+    | some a, some c, some b => some ⟨a, c, b⟩
+    | _, _, _ => none
+  | _ => none
+
+def procClass : ProcRes → String
+  | .value => "value"
+  | .error _ => "error"
+  | .raised _ => "raised"
+  | .killed _ => "killed"
+
+def parseIOp (s : String) : Option IOp :=
+  match s with
+  | "add" => some .add | "sub" => some .sub | "mul" => some .mul | "div" => some .div
+  | "mod" => some .mod | "xor" => some .xor | "shl" => some .shl | "shr" => some .shr
+  | "band" => some .band | "bor" => some .bor | _ => none
+
+/-- prefix-token reader with fuel; returns the expression and the remaining tokens -/
+def parseIExpr : Nat → List String → Option (IExpr × List String)
+  | 0, _ => none
+  | _, [] => none
+  | fuel + 1, t :: rest =>
+    if t = "neg" then
+      match parseIExpr fuel rest with
+      | some (e, r) => some (.neg e, r)
+      | none => none
+    else if t.startsWith "n" then
+      ((t.drop 1).toString.toNat?).map fun n => (IExpr.lit (Int.ofNat n), rest)
+    else
+      match parseIOp t with
+      | none => none
+      | some o =>
+        match parseIExpr fuel rest with
+        | none => none
+        | some (l, r1) =>
+          match parseIExpr fuel r1 with
+          | none => none
+          | some (r, r2) => some (.bin o l r, r2)
+
 def handle : List String → String
+  | ["life", watch, steps] =>
+    let w : Option Watch := match watch with
+      | "untracked" => some .untracked | "closeKept" => some .closeKept
+      | "closeCleared" => some .closeCleared | _ => none
+    match w, (steps.splitOn ",").mapM parseLStep with
+    | some w, some l =>
+      let (rs, s) := lifeSeq w Life.init l
+      "ok\t" ++ ",".intercalate (rs.map procClass) ++ "\trunning=" ++ toString s.running
+    | _, _ => "error?\tbad-life"
+  | ["constexpr", toks] =>
+    let ts := toks.splitOn " "
+    match parseIExpr (ts.length + 1) ts with
+    | some (e, []) =>
+      match declRun implConst e with
+      | (.value, some v) => "value\t" ++ toString v
+      | (.error w, _) => "error\t" ++ w
+      | (.raised w, _) => "raised\t" ++ w
+      | (.killed w, _) => "killed\t" ++ w
+      | (.value, none) => "error?\tno-value"
+    | _ => "error?\tbad-expr"
   | ["nest", entry, limit, ops] =>
     match parseEntry entry, limit.toNat?, parseNestOps ops with
     | some e, some lim, some l =>
